@@ -143,7 +143,7 @@ def fast(ids, base_name='seeded'):
     """Development aid: evaluate the seeded patches on scratch copies (PJX_REPO) in parallel; evidence files are not touched."""
     from concurrent.futures import ProcessPoolExecutor
     base = os.path.join(HERE, base_name)
-    names = [n for n in sorted(os.listdir(base)) if os.path.isdir(os.path.join(base, n)) and (not ids or n in ids or n.split('-')[0] in ids or any(n.startswith(i) for i in ids))]
+    names = [n for n in sorted(os.listdir(base)) if os.path.isdir(os.path.join(base, n)) and not n.startswith('_') and (not ids or n in ids or n.split('-')[0] in ids or any(n.startswith(i) for i in ids))]
     out = {}
     import functools
     with ProcessPoolExecutor(14) as ex:
